@@ -5,7 +5,10 @@ import (
 	"crypto/x509"
 	"fmt"
 	"net"
+	"os"
+	"os/exec"
 	"runtime"
+	"strings"
 	"sync"
 	"time"
 
@@ -17,7 +20,7 @@ import (
 	"verifharness/refcodec"
 )
 
-func init() { checks["C18"] = runC18 }
+func init() { checks["C18"] = runC18; checks["C18child"] = runC18child }
 
 var c18serverKinds = []string{"trusted", "other-ca", "self-signed", "expired", "not-yet-valid", "wrong-san", "no-san"}
 var c18nameKinds = []string{"matching", "unset", "mismatching"}
@@ -25,9 +28,9 @@ var c18clientKinds = []string{"none", "trusted", "other-ca", "expired"}
 var c18versions = []uint16{tls.VersionTLS11, tls.VersionTLS12, tls.VersionTLS13}
 
 type c18pki struct {
-	ca, other     *certs.CA
-	server        map[string][2][]byte
-	client        map[string][2][]byte
+	ca, other *certs.CA
+	server    map[string][2][]byte
+	client    map[string][2][]byte
 }
 
 func newC18PKI() *c18pki {
@@ -342,6 +345,74 @@ func c18sequences(p *c18pki, rep *common.Reporter) int {
 			ln.Close()
 		}
 	}
+	// one ExporterTLSClientConfig value reused by an application for two exporters: what the first session
+	// established (the name it verified) must not decide the second. Server A listens on 127.0.0.1, server B
+	// on 127.0.0.2 with a certificate that is valid for 127.0.0.1 only; ServerName is unset, so the address
+	// dialled is the name to verify, and B must be refused.
+	{
+		n++
+		only1 := [2][]byte{}
+		only1[0], only1[1] = p.ca.Issue(certs.Opts{CN: "collector", IPs: []net.IP{net.ParseIP("127.0.0.1")}})
+		c1, _ := tls.X509KeyPair(only1[0], only1[1])
+		serve := func(host string) (net.Listener, chan bool) {
+			ln, err := tls.Listen("tcp", host+":0", &tls.Config{Certificates: []tls.Certificate{c1}, MinVersion: tls.VersionTLS12})
+			if err != nil {
+				return nil, nil
+			}
+			flows := make(chan bool, 16)
+			go func() {
+				for {
+					conn, err := ln.Accept()
+					if err != nil {
+						return
+					}
+					go func() {
+						conn.SetDeadline(time.Now().Add(2 * time.Second))
+						b := make([]byte, 64)
+						k, _ := conn.Read(b)
+						flows <- k >= 2 && b[0] == 0 && b[1] == 10
+						conn.Close()
+					}()
+				}
+			}()
+			return ln, flows
+		}
+		la, fa := serve("127.0.0.1")
+		lb, fb := serve("127.0.0.2")
+		if la != nil && lb != nil {
+			shared := &exporter.ExporterTLSClientConfig{CAData: p.ca.PEM} // ServerName left unset
+			send := func(addr string) bool {
+				ep, err := exporter.InitExportingProcess(exporter.ExporterInput{CollectorAddress: addr, CollectorProtocol: "tcp", ObservationDomainID: 9, TLSClientConfig: shared})
+				if err != nil {
+					return false
+				}
+				set := e2eCase{elems: []e2eElem{{c15ie("sourceTransportPort", 0)}}}.tmplSet(ep.NewTemplateID())
+				_, err = ep.SendSet(set)
+				time.Sleep(50 * time.Millisecond)
+				ep.CloseConnToCollector()
+				return err == nil
+			}
+			seq := "one TLS client configuration (ServerName unset) used for 127.0.0.1, then for 127.0.0.2 whose certificate names 127.0.0.1 only"
+			if !send(la.Addr().String()) || !<-fa {
+				rep.Report("sequence", "refused-valid-peer", seq+": the first session (address matches the certificate) was refused", map[string]string{"cell": seq}, nil)
+			}
+			if send(lb.Addr().String()) {
+				select {
+				case f := <-fb:
+					if f {
+						rep.Report("sequence", "accepted-unauthenticated-peer", seq+": the second exporter completed a session and sent its messages although the certificate does not match the address it dialled", map[string]string{"cell": seq}, nil)
+					}
+				case <-time.After(300 * time.Millisecond):
+				}
+			}
+		}
+		if la != nil {
+			la.Close()
+		}
+		if lb != nil {
+			lb.Close()
+		}
+	}
 	// same against the library collector
 	for _, name := range []string{"localhost", ""} {
 		n++
@@ -370,6 +441,82 @@ func c18sequences(p *c18pki, rep *common.Reporter) int {
 		cp.Stop()
 	}
 	return n
+}
+
+// c18systemStore: the configured CA is the only trust anchor - a collector whose certificate chains to some CA
+// of the machine's system store (and not to the configured one) must be refused. Go reads the system store
+// once per process from SSL_CERT_FILE / SSL_CERT_DIR, so the cell runs in a child process of this binary
+// whose system store is made to hold exactly the *other* CA.
+func c18systemStore(p *c18pki, rep *common.Reporter) int {
+	dir, err := os.MkdirTemp("", "verif-c18-")
+	if err != nil {
+		return 0
+	}
+	defer os.RemoveAll(dir)
+	os.Mkdir(dir+"/emptydir", 0o700)
+	sc := p.server["other-ca"]
+	for name, b := range map[string][]byte{"system.pem": p.other.PEM, "configured-ca.pem": p.ca.PEM, "server.crt": sc[0], "server.key": sc[1]} {
+		os.WriteFile(dir+"/"+name, b, 0o600)
+	}
+	self, _ := os.Executable()
+	cmd := exec.Command(self, "C18child", dir)
+	cmd.Env = append(os.Environ(), "SSL_CERT_FILE="+dir+"/system.pem", "SSL_CERT_DIR="+dir+"/emptydir")
+	out, _ := cmd.CombinedOutput()
+	switch {
+	case strings.Contains(string(out), "C18CHILD FLOW"):
+		rep.Report("system-store", "accepted-unauthenticated-peer", "an exporter configured with one CA completed a session with a collector whose certificate chains to a different CA that happens to be in the system trust store, and sent its messages", map[string]string{"cell": "exporter vs server certified by a system-store CA other than the configured one"}, nil)
+	case strings.Contains(string(out), "C18CHILD REFUSED"):
+	default:
+		fmt.Printf("C18 system-store cell: child gave no verdict: %.300s\n", out)
+	}
+	return 1
+}
+
+func runC18child(_, _ string) int {
+	dir := os.Args[len(os.Args)-1]
+	rd := func(n string) []byte { b, _ := os.ReadFile(dir + "/" + n); return b }
+	cert, err := tls.X509KeyPair(rd("server.crt"), rd("server.key"))
+	if err != nil {
+		fmt.Println("C18CHILD ERROR", err)
+		return 2
+	}
+	ln, err := tls.Listen("tcp", "127.0.0.1:0", &tls.Config{Certificates: []tls.Certificate{cert}, MinVersion: tls.VersionTLS12})
+	if err != nil {
+		fmt.Println("C18CHILD ERROR", err)
+		return 2
+	}
+	got := make(chan bool, 4)
+	go func() {
+		for {
+			conn, err := ln.Accept()
+			if err != nil {
+				return
+			}
+			go func() {
+				conn.SetDeadline(time.Now().Add(2 * time.Second))
+				b := make([]byte, 64)
+				k, _ := conn.Read(b)
+				if k >= 2 && b[0] == 0 && b[1] == 10 {
+					got <- true
+				}
+				conn.Close()
+			}()
+		}
+	}()
+	ep, err := exporter.InitExportingProcess(exporter.ExporterInput{CollectorAddress: ln.Addr().String(), CollectorProtocol: "tcp", ObservationDomainID: 9,
+		TLSClientConfig: &exporter.ExporterTLSClientConfig{ServerName: "localhost", CAData: rd("configured-ca.pem")}})
+	if err == nil {
+		set := e2eCase{elems: []e2eElem{{c15ie("sourceTransportPort", 0)}}}.tmplSet(ep.NewTemplateID())
+		ep.SendSet(set)
+		select {
+		case <-got:
+			fmt.Println("C18CHILD FLOW")
+			return 0
+		case <-time.After(2 * time.Second):
+		}
+	}
+	fmt.Println("C18CHILD REFUSED")
+	return 0
 }
 
 // plaintext peers against encrypted endpoints
@@ -659,13 +806,13 @@ func runC18(tier, replay string) int {
 	}
 	wg.Wait()
 	nseq := c18sequences(p, rep)
-	np := c18plaintext(p, rep) + nseq
+	np := c18plaintext(p, rep) + nseq + c18systemStore(p, rep)
 	fmt.Printf("C18 %s: cells=%d (+%d plaintext) flowed=%d refused=%d open=%d stuck=%d violations=%d\n", tier, len(cells), np, flowed, refused, openCells, stuck, rep.Violations())
 	ev := &common.Evidence{PropertyID: "C18", Tier: tier}
 	ev.Coverage = common.Coverage{
 		"states": len(cells) + np, "transitions": len(cells) + np, "traces_validated_against_impl": len(cells) + np, "samples": samples,
 		"evaluations": len(cells) + np, "distinct_nontrivial": len(cells) + np,
-		"rule":       "every cell of the acceptance matrix, each a real TLS/DTLS session on loopback with certificates minted in process: library exporter vs hand-made TLS server {7 server certificate kinds x 3 ServerName settings x peer max version 1.1/1.2/1.3 x client cert none/trusted}; hand-made TLS client vs library collector {4 client certificate kinds x client-CA set/unset x max version 1.1/1.2/1.3}; library exporter vs library collector over TLS {7 x 3 x 4 client kinds x client-CA set/unset} and over DTLS {7 x 3}; plus plaintext exporter vs TLS/DTLS collector (also with six kinds of unusable security settings, which must never make the collector serve in clear) and TLS/DTLS exporter vs plaintext listener, plus two-step sequences against one long-lived server (an exporter trusting the server's CA, then one trusting a different CA only). Oracle (tlspolicy): messages flow <=> chain to the configured CA, inside validity, name/address match, version >= 1.2, client certificate from the client CA when one is configured. Cells are distinct by construction",
+		"rule":       "every cell of the acceptance matrix, each a real TLS/DTLS session on loopback with certificates minted in process: library exporter vs hand-made TLS server {7 server certificate kinds x 3 ServerName settings x peer max version 1.1/1.2/1.3 x client cert none/trusted}; hand-made TLS client vs library collector {4 client certificate kinds x client-CA set/unset x max version 1.1/1.2/1.3}; library exporter vs library collector over TLS {7 x 3 x 4 client kinds x client-CA set/unset} and over DTLS {7 x 3}; plus plaintext exporter vs TLS/DTLS collector (also with six kinds of unusable security settings, which must never make the collector serve in clear) and TLS/DTLS exporter vs plaintext listener, plus two-step sequences against one long-lived server (an exporter trusting the server's CA, then one trusting a different CA only), one client configuration reused for two collectors of which the second presents the first one's certificate, and - in a child process whose system trust store holds another CA - a collector certified by that CA. Oracle (tlspolicy): messages flow <=> chain to the configured CA, inside validity, name/address match, version >= 1.2, client certificate from the client CA when one is configured. Cells are distinct by construction",
 		"exhaustive": stuck == 0, "flowed": flowed, "refused": refused, "open_cells": openCells, "stuck": stuck,
 	}
 	ev.Assumptions = []string{"DTLS with no ServerName configured: the DTLS library checks the chain but no name; the two cells (wrong SAN, no SAN) x unset are left open", "a refused cell is observed as 'nothing delivered within 400 ms'; an accepted one must deliver within 5 s"}
